@@ -19,6 +19,7 @@ OUTPUTS = {
     'gen_qcd': ['Gen.QcdSrcF', 'Gen.QcdSrcR'],
     'gen_eff': ['Gen.EffSrcF', 'Gen.EffSrcR'],
     'gen_kin': ['Gen.ConvSrcF', 'Gen.ConvSrcR'],
+    'gen_chisq': ['Gen.ChiSqSrcF', 'Gen.ChiSqSrcR'],
 }
 
 
@@ -37,7 +38,7 @@ def main(strict=False):
         pass
     except Exception as e:
         status['py2lean'] = repr(e)[:400]
-    for gen in ('gen_classtable', 'gen_adim', 'gen_bhref', 'gen_qcd', 'gen_eff', 'gen_kin'):
+    for gen in ('gen_classtable', 'gen_adim', 'gen_bhref', 'gen_qcd', 'gen_eff', 'gen_kin', 'gen_chisq'):
         try:
             mod = __import__(gen)
         except ImportError:
